@@ -6,6 +6,8 @@ Import ListNotations.
 (* configuration test guarding a step:  s.Options.GetMaintenance(), s.Options.GetAuth() / .auth and
    their negations; COpaque = a condition on request data the translator does not interpret *)
 Inductive cond := CMaint | CNotMaint | CAuth | CNotAuth | COpaque
+| CPerRequest   (* the step sits inside the handler's `for { ... stream.Recv() ... }` loop: it runs for every
+                   request of the stream (always true for the request at hand) *)
 | CLastLogin.   (* s.removeUserFromLoginList(user) returned true: the user's login counter reached zero *)
 
 (* one disjunct of a refusal `if !A && !B ... { return error }` (the call proceeds iff A || B || ...) *)
